@@ -190,7 +190,7 @@ def mom_cases(draw):
         # finite series whose squares / sums overflow: the summary must still be finite
         sp["scale"] = draw(st.sampled_from([1e155, 1e160, 1e300, 1e306]))
         sp["off"] = 0.0
-    return {"series": sp}
+    return {"series": sp, "bad_call_before": draw(st.sampled_from([None, None, None, "log_and_hp_filter", "diff_log_demean_filter"]))}
 
 
 def check_moments(ctx: Ctx, case):
@@ -199,9 +199,22 @@ def check_moments(ctx: Ctx, case):
     sub = "moments"
     y = build(case["series"])
     y0 = y.copy()
-    ctx.count(sub, case, True, [case["series"]["shape"]])
-    with guard(ctx, "C20/exception", sub, case), np.errstate(all="ignore"):
-        mom = get_mom_ts_1d(y)
+    ctx.count(sub, case, True, [case["series"]["shape"]] + (["after-a-rejected-filter-call"] if case.get("bad_call_before") else []))
+    err0 = np.geterr()
+    try:
+        if case.get("bad_call_before"):
+            # an earlier, unrelated call that the library cannot serve (a log filter on a series touching zero / negative
+            # values): whatever it does - NaNs, a warning, an exception - the summary of the next series is still owed
+            import black_it.utils.time_series as ts
+            bad = np.array([1.0, 0.5, 0.0, 2.0, -1.0, 3.0, 1.0, 2.0])
+            try:
+                getattr(ts, case["bad_call_before"])(bad)
+            except Exception:  # noqa: BLE001
+                pass
+        with guard(ctx, "C20/exception", sub, case):
+            mom = get_mom_ts_1d(y)     # numpy's error handling is left as the process has it (no override here)
+    finally:
+        np.seterr(**err0)
     if mom.shape != (18,) or not np.all(np.isfinite(mom)):
         ctx.fail("C20/moments-nonfinite", f"moment summary shape {mom.shape}, values {mom.tolist()}", sub, case)
         return
